@@ -567,6 +567,32 @@ func (w *c16World) oracleRound(before, after []c16JobView) {
 	}
 }
 
+// hypothesis WF of theorem round_inv, evaluated on the API state: object names unique (the API guarantees it), a PodRef
+// resolves to a pod of its own namespace, and no pod has two open (pending / running) jobs
+func (w *c16World) wellFormed(v []c16JobView) bool {
+	seen := map[int]bool{}
+	open := map[int]bool{}
+	for _, j := range v {
+		if seen[j.id] {
+			return false
+		}
+		seen[j.id] = true
+		if j.pod == 0 {
+			continue
+		}
+		if p, ok := w.pods[j.pod]; ok && p.ns != j.ns {
+			return false
+		}
+		if j.phase <= 2 {
+			if open[j.pod] {
+				return false
+			}
+			open[j.pod] = true
+		}
+	}
+	return true
+}
+
 // the pod may be migrated as far as the rules that do not depend on headroom are concerned: it carries the evict
 // annotation, or it is controlled by a workload (unless bare pods are allowed), not terminating, and its workload has
 // more than one replica and more replicas than either per-workload maximum (unless that check is switched off)
@@ -838,8 +864,10 @@ func c16ArbCase(h *vHarness, r *vRand, headroom bool) {
 				pod, ns = 90+k, 1
 			} else if kind == 5 {
 				pod, ns = 0, 0
-			} else if kind != 2 && hasOpenJob(pod) {
-				continue // at most one open job per pod (what creation through Filter guarantees)
+			} else if kind != 2 && hasOpenJob(pod) && !r.Chance(1, 10) {
+				// at most one open job per pod (what creation through Filter guarantees); the rare exception makes the
+				// hypothesis WF of round_inv false: model and implementation are still compared, the oracle is not applied
+				continue
 			}
 			w.createJob(r, nextJob, pod, ns, kind)
 			nextJob++
@@ -919,8 +947,14 @@ func c16ArbCase(h *vHarness, r *vRand, headroom bool) {
 				}
 			}
 			after := w.view()
+			wf := w.wellFormed(before)
+			h.Obs("wf %d", vB(wf))
 			w.emitState(after)
-			w.oracleRound(before, after)
+			if wf {
+				w.oracleRound(before, after)
+			} else {
+				h.Tag("round:not-wellformed")
+			}
 			adm, wait, failed := 0, 0, 0
 			for i, j := range after {
 				if c16Live(j) && !c16Live(before[i]) {
